@@ -172,6 +172,8 @@ Definition leave_closure_seq : list lop :=
 
 Inductive closer_kind : Type := ByClose | ByRemoveRealm.
 
+Inductive ftag : Type := TCl | TRt | TRm | TDl | TBr | TMs | TMp | TTm.
+
 Inductive L : Type :=
 (* attach j *)
 | AtLookup (j : nat) | AtLookupWait (j : nat)
@@ -226,7 +228,8 @@ Inductive L : Type :=
    looked at by the loop over shutdownSessions in [js]), then continue as [k] *)
 | RunAt (n : nat) (js : list nat) (k : L)
 | RunClosePeer (j : nat) (n : nat) (js : list nat) (k : L)
-| Fin.
+(* a finished goroutine, tagged with what it was *)
+| Fin (t : ftag).
 
 (** ** Helpers *)
 
@@ -459,7 +462,7 @@ Definition code (l : L) : act :=
   | RmLeave cl j sh pubs (o :: r) => lop_act cl j sh pubs o r
   | RmLeave cl j sh pubs [] => ATau (RmIdle cl)
   | RmKick cl => ACloseOnce (map CDone cl ++ [CReplyKick]) (RmIdle cl)
-  | RmStop => AClose CRealmStopped Fin
+  | RmStop => AClose CRealmStopped (Fin TRm)
   (* ---- dealer ---- *)
   | DlIdle kn tm =>
       ARecv CDealerAct (fun v => match v with None => DlStop | Some m => DlGot kn tm m end)
@@ -472,12 +475,12 @@ Definition code (l : L) : act :=
   | DlCancel kn tm (x :: r) => AWrite (VTimer x) 2%N (DlCancel kn tm r)
   | DlCancel kn tm [] => ATau (DlReplyCancel kn)
   | DlReplyCancel kn => ACloseOnce [CReplyCancel] (DlIdle kn [])
-  | DlStop => AClose CDealerStopped Fin
+  | DlStop => AClose CDealerStopped (Fin TDl)
   (* ---- broker ---- *)
   | BrIdle kn =>
       ARecv CBrokerAct (fun v => match v with None => BrStop | Some m => BrGot kn m end)
   | BrGot kn m => broker_got kn m
-  | BrStop => AClose CBrokerStopped Fin
+  | BrStop => AClose CBrokerStopped (Fin TBr)
   (* ---- meta-session handler ---- *)
   | MsLoop =>
       ASelect [SRecv CMetaIn (fun v =>
@@ -487,11 +490,11 @@ Definition code (l : L) : act :=
   | MsGot (MResult j) => ASend CDealerAct (MYield j) MsLoop
   | MsGot _ => ATau MsLoop
   | MsBye =>
-      ATrySend CMetaQ MGoodbye (if fx_meta fx then MsStop else Fin)
-                               (if fx_meta fx then MsStop else Fin)
+      ATrySend CMetaQ MGoodbye (if fx_meta fx then MsStop else Fin TMs)
+                               (if fx_meta fx then MsStop else Fin TMs)
   | MsStop => AClose CMetaStop MsDrain
   | MsDrain =>
-      ASelect [SRecv CMetaIn (fun _ => MsDrain); SRecv CMetaDone (fun _ => Fin)] None
+      ASelect [SRecv CMetaIn (fun _ => MsDrain); SRecv CMetaDone (fun _ => Fin TMs)] None
   (* ---- metaProcedureHandler ---- *)
   | MpLoop =>
       let got := fun v =>
@@ -505,11 +508,11 @@ Definition code (l : L) : act :=
         ASelect [SRecv CMetaQ got; SRecv CMetaStop (fun _ => MpExit)] None
       else ARecv CMetaQ got
   | MpYield j => ASend CMetaIn (MResult j) MpLoop
-  | MpExit => AClose CMetaDone Fin
+  | MpExit => AClose CMetaDone (Fin TMp)
   (* ---- call timer ---- *)
   | TmWait j => ARead (VTimer j) (fun v => if N.eqb v 2 then TmEnd j else TmFire j)
   | TmFire j => ASend CDealerAct (MTimerFire j) (TmEnd j)
-  | TmEnd j => if fx_timers fx then AWgDone WTimers Fin else ATau Fin
+  | TmEnd j => if fx_timers fx then AWgDone WTimers (Fin TTm) else ATau (Fin TTm)
   (* ---- router goroutine ---- *)
   | RtIdle =>
       if fx_router fx then
@@ -521,13 +524,13 @@ Definition code (l : L) : act :=
   | RtLookupReply j ok => ASend (CReplyLookup j) (if ok then MOk else MErr) RtIdle
   | RtRemoveReply => ACloseOnce [CReplyRemove] RtIdle
   | RtCloseReply => ACloseOnce [CReplyCloseAll] RtIdle
-  | RtStop => AClose CRouterStopped Fin
+  | RtStop => AClose CRouterStopped (Fin TRt)
   (* ---- closer ---- *)
   | ClStart ByClose => ASend CRouterAct MCloseAll ClWaitCloseAll
   | ClWaitCloseAll => ARecv CReplyCloseAll (fun _ => ClStopRouter 0)
   | ClStopRouter 0 =>
       if fx_router fx then AClose CRouterQuit (ClStopRouter 1) else AClose CRouterAct (ClStopRouter 1)
-  | ClStopRouter _ => ARecv CRouterStopped (fun _ => Fin)
+  | ClStopRouter _ => ARecv CRouterStopped (fun _ => Fin TCl)
   | ClStart ByRemoveRealm => ASend CRouterAct MRemoveLookup ClWaitRemove
   | ClWaitRemove =>
       (* RemoveRealm closes the realm in the caller's goroutine; the model then
@@ -540,7 +543,7 @@ Definition code (l : L) : act :=
       | None => ATau k
       end
   | RunClosePeer j n js k => AClose (CQueue j) (RunAt n js k)
-  | Fin => ADone
+  | Fin _ => ADone
   end.
 
 (** ** Initial states *)
